@@ -333,6 +333,7 @@ async fn one_case(cfg: &Cfg, segs: &[Seg], script: Vec<Rd>, default_read: usize,
 
 #[derive(Default)]
 struct Stats {
+    huge_chunks: usize,
     wide_filter: usize,
     cases: usize,
     chunks: usize,
@@ -353,6 +354,7 @@ impl Stats {
         h::emit_stat("cases_with_more_than_3_reads", self.fragmented);
         h::emit_stat("cases_with_chunk_larger_than_refill_buffer", self.chunk_over_refill);
         h::emit_stat("cases_with_more_than_16_filter_bits_on_megabytes", self.wide_filter);
+        h::emit_stat("cases_with_chunks_of_tens_of_mib", self.huge_chunks);
     }
 }
 
@@ -501,6 +503,53 @@ pub async fn c09(seed: u64, thorough: bool) {
         let segs = vec![Seg::Rand(4242 + i as u64, total)];
         one_case(&cfg, &segs, vec![Rd::Bytes(70_000), Rd::Pending], usize::MAX / 2, &mut st, false).await;
         st.wide_filter += 1;
+    }
+    // (c1) very large chunks (tens of MiB: far beyond any internal buffer size), judged by the oracles alone:
+    // tiling, fixed size / cut at the maximum, and for RollSum the rule itself
+    let huge: Vec<(Cfg, Vec<Seg>)> = if thorough {
+        vec![
+            (Cfg::Fixed(70 << 20), vec![Seg::Rand(31, 150 << 20)]),
+            (Cfg::Roll(20, 0, 80 << 20, 64), vec![Seg::Const(0, 100 << 20)]),
+            (Cfg::Buz(20, 0, 80 << 20, 64), vec![Seg::Const(0, 100 << 20)]),
+        ]
+    } else {
+        vec![(Cfg::Fixed(70 << 20), vec![Seg::Rand(31, 150 << 20)])]
+    };
+    for (cfg, segs) in huge {
+        let data = segs_bytes(&segs);
+        let desc = format!("chunk {} {} (oracles only)", cfg.token(), segs_token(&segs));
+        println!("TRY\t{}", desc);
+        let (cs, _delivered, mut problems) = real_chunks(&cfg, &data, vec![], usize::MAX / 2).await;
+        if let Some(p) = bounds_problem(&cfg, &cs) {
+            problems.push(p);
+        }
+        if let Some(p) = rollsum_rule_problem(&cfg, &data, &cs) {
+            problems.push(p);
+        }
+        // tiling, independently of real_chunks' own checks
+        let mut off = 0u64;
+        for (o, l) in &cs {
+            if *o != off || *l == 0 {
+                problems.push("chunks-do-not-tile-the-stream");
+                break;
+            }
+            off += *l as u64;
+        }
+        if off != data.len() as u64 {
+            problems.push("chunks-do-not-tile-the-stream");
+        }
+        let mx = match cfg {
+            Cfg::Fixed(n) => n,
+            Cfg::Roll(_, _, mx, _) | Cfg::Buz(_, _, mx, _) => mx,
+        };
+        // constant data under a 20-bit filter has no hash boundary: every chunk but the last is cut at the maximum
+        if cs.iter().rev().skip(1).any(|c| c.1 != mx) {
+            problems.push("chunk-not-cut-at-the-maximum-on-boundary-free-data");
+        }
+        for p in problems {
+            h::emit_oracle_fail(p, &desc);
+        }
+        st.huge_chunks += 1;
     }
     // (c) large: chunks larger than the 1 MiB refill buffer, reads around the buffer size
     let n_large = if thorough { 6 } else { 1 };
